@@ -163,6 +163,21 @@ def run(tier, seed, broken_proof=False):
             for cfg in (("lex_inf", "z3"), ("system-w", "z3"), ("lex_inf", "rc2"), ("system-w", "rc2")):
                 c = dict(c0, queries=c0["queries"][:3], id="fx-%s@%s" % (c0["id"], ops.cfg_name(cfg)))
                 jobs.append((c, cfg))
+    # ... and bases of five atoms and six conditionals whose layers have several incomparable minimal correction sets, under the rc2
+    # configurations: an expiry in the middle of the enumeration (some sets found, not all) must leave nothing behind that a later call
+    # reads. The first is hand-built, the others come from a generator of their own (fixed seed, independent of VERIF_SEED).
+    from common import And, Not, Or, V, make_case
+    mc_base = [(1, Or(V(3), V(1)), V(2)), (2, Not(V(4)), Or(Not(V(4)), Not(V(2)))), (3, V(2), V(2)), (4, Not(V(0)), Or(V(2), V(4))),
+               (5, Or(Not(V(1)), V(4)), V(4)), (6, Not(V(2)), Or(V(4), V(1)))]
+    mc_qs = [(1, And(V(1), Not(V(0))), And(V(1), V(4))), (2, V(3), And(V(2), V(0))), (3, Not(V(2)), Or(V(0), V(1)))]
+    mcs = [make_case("mc0", 5, mc_base, mc_qs, False)]
+    rng2 = random.Random(141414)
+    cand2 = ops.gen_ops_cases(rng2, 60, False, max_atoms=5, max_conds=6, nq=3, prefix="mc")
+    m2 = common.run_model(cand2)
+    mcs += [c for c in cand2 if m2[c["id"]]["part"] is not None and len(c["base"]) >= 5][: (5 if tier == "quick" else 20)]
+    for ci, c0 in enumerate(mcs):
+        for cfg in (("system-w", "rc2"), ("lex_inf", "rc2"), ("c-inference", "rc2")) if ci == 0 else ((("system-w", "rc2"), ("lex_inf", "rc2"))[ci % 2],):
+            jobs.append((dict(c0, queries=c0["queries"][:3], id="%s@%s" % (c0["id"], ops.cfg_name(cfg))), cfg))
     import concurrent.futures
     import multiprocessing as mp
     res = []
